@@ -8,7 +8,7 @@ for mp in sorted(glob.glob(os.path.join(ROOT, 'seeded', '*', 'meta.json'))):
     caught = [p for p, r in res.items() if r.get('caught')]
     ran = ', '.join('%s:%s' % (p, 'VIOLATION' if r.get('caught') else 'rc=%s' % r.get('rc')) for p, r in sorted(res.items())) or 'not run (property not claimed)'
     verdict = 'caught by ' + ', '.join(caught) if caught else ('missed' if res else 'n/a')
-    rows.append('| %s | %s | %s | %s | %s |' % (m['id'], m['change'].replace('|', '/'), m.get('needs_to_manifest', '').replace('|', '/'), verdict, m.get('miss_reason', ran)))
+    rows.append('| %s | %s | %s | %s | %s |' % (m['id'], m['change'].replace('|', '/'), m.get('needs_to_manifest', '').replace('|', '/'), verdict, ran if caught else m.get('miss_reason', ran)))
 tab = '| seed | change | needs | verdict | checks run / why missed |\n|------|--------|-------|---------|--------------------------|\n' + '\n'.join(rows) + '\n'
 p = os.path.join(ROOT, 'DESIGN.md'); s = open(p).read()
 rep = '<!-- SEEDTABLE -->\n' + tab + '<!-- /SEEDTABLE -->'
